@@ -2,7 +2,8 @@
    followed by Print Assumptions. *)
 From Coq Require Import ZArith NArith List Bool String.
 From Falcon.lib Require Import PyStr.
-From Falcon.C15 Require Import Model Spec Proofs ProofsBridge.
+From Falcon.gen Require Import ConstsC15.
+From Falcon.C15 Require Import Model Spec CookieText Proofs ProofsBridge.
 Import ListNotations.
 (* the proved model of falcon/util/uri.py (C10): M10 = Falcon.C10.Model, S10 = Falcon.C10.Spec *)
 
@@ -172,6 +173,74 @@ Theorem C15_cookie_order_oracle_sound : forall sd f c a n ss d p c',
   (unset_cookie f c n ss d p = (c', None) -> cookie_order_ok 1 (map fst c) n (map fst c') = true).
 Proof. exact cookie_order_oracle_sound. Qed.
 Print Assumptions C15_cookie_order_oracle_sound.
+
+(* ---- cookie VALUE text and the echo through the request API.  [quote] / [unquote] model
+   http.cookies._quote / _unquote (tables regenerated from the live module), [parse_cookie_value]
+   the strip + guard + _unquote of request_helpers._parse_cookie_header. *)
+
+(* the live _Translator table: backslash pair for the double quote and the backslash, identity on
+   _UnescapedChars, three octal digits for every other code point below 256 *)
+Theorem C15_cookie_translator_table : forall c, translate_char c = tr_spec c.
+Proof. exact translate_spec. Qed.
+Print Assumptions C15_cookie_translator_table.
+
+Theorem C15_unquote_quote : forall v, unquote (quote v) = v.
+Proof. exact unquote_quote. Qed.
+Print Assumptions C15_unquote_quote.
+
+(* guard conditions: a value quoted on output has length >= 2 and starts and ends with a double
+   quote; a value NOT quoted on output consists of legal characters only, so it contains no double
+   quote (set_cookie of a value that itself starts and ends with one is quoted and escaped) *)
+Theorem C15_quoted_shape : forall v,
+  is_legal_key v = false ->
+  exists body, quote v = dquote :: body ++ [dquote] /\ body = flat_map translate_char v /\
+               (2 <= List.length (quote v))%nat /\ hd 0%N (quote v) = dquote /\ last (quote v) 0%N = dquote.
+Proof. exact quoted_shape. Qed.
+Print Assumptions C15_quoted_shape.
+
+Theorem C15_unquoted_shape : forall v,
+  is_legal_key v = true ->
+  quote v = v /\ v <> [] /\ Forall (fun c => char_in c cookie_LegalChars = true) v.
+Proof. exact unquoted_shape. Qed.
+Print Assumptions C15_unquoted_shape.
+
+(* the echo: set_cookie accepts exactly the ASCII-encodable values ([settable]); what the request
+   API makes of the emitted text is the value that was set (it holds for every string) *)
+Theorem C15_cookie_value_echo : forall v,
+  settable v = true -> parse_cookie_value (emitted_value v) = v.
+Proof. exact cookie_value_echo. Qed.
+Print Assumptions C15_cookie_value_echo.
+
+(* the emitted text of a settable value is printable ASCII without ';' and ',' *)
+Theorem C15_emitted_value_safe : forall v, settable v = true ->
+  Forall (fun x => (32 <= x < 127 /\ x <> 59 /\ x <> 44)%N) (emitted_value v).
+Proof. exact emitted_value_safe. Qed.
+Print Assumptions C15_emitted_value_safe.
+
+(* ... and at the level of the Cookie header (C09's model of _parse_cookie_header): the pair
+   name=emitted_value, sent back as a Cookie header, is read as exactly that name and value *)
+Theorem C15_cookie_header_echo : forall name v,
+  echo_name name = true -> settable v = true ->
+  cookies_read (name ++ 61%N :: emitted_value v) = [(name, [v])].
+Proof. exact cookie_header_echo. Qed.
+Print Assumptions C15_cookie_header_echo.
+
+Theorem C15_echo_oracle_sound : forall v,
+  echo_oracle v (emitted_value v) (parse_cookie_value (emitted_value v)) = [].
+Proof. exact echo_oracle_sound. Qed.
+Print Assumptions C15_echo_oracle_sound.
+
+(* C:\backup\2024\101 ; a value that itself looks quoted ; controls, ';' and ',' *)
+Example C15_cookie_text_nontrivial :
+  quote [67; 58; 92; 98; 92; 50; 48; 50; 52; 92; 49; 48; 49]%N =
+    [34; 67; 58; 92; 92; 98; 92; 92; 50; 48; 50; 52; 92; 92; 49; 48; 49; 34]%N /\
+  quote [34; 120; 34]%N = [34; 92; 34; 120; 92; 34; 34]%N /\
+  quote [10; 59; 44; 127; 32]%N = [34; 92; 48; 49; 50; 92; 48; 55; 51; 92; 48; 53; 52; 92; 49; 55; 55; 32; 34]%N /\
+  quote [97; 58; 49]%N = [97; 58; 49]%N /\ quote [] = [34; 34]%N /\
+  unquote [34; 50; 92; 49; 48; 49; 34]%N = [50; 65]%N /\
+  unquote [34; 92; 92; 49; 48; 49; 34]%N = [92; 49; 48; 49]%N /\
+  unquote [34; 92; 52; 48; 48; 92; 10; 92; 34]%N = [52; 48; 48; 92; 10; 92]%N.
+Proof. vm_compute. repeat split; reflexivity. Qed.
 
 (* ---- URI-bearing helpers: pure ASCII, decoding back to the original with falcon's own
    uri.decode (C10's proved model of it: all three paths = the RFC 3986 reference decoder + UTF-8
